@@ -1,5 +1,5 @@
 (* C15 — proofs about the lookup model. *)
-From Coq Require Import List NArith Bool Lia ZifyBool ZifyNat ZifyN.
+From Coq Require Import List PeanoNat NArith Bool Lia ZifyBool ZifyNat ZifyN Permutation.
 From V.gen Require Consts.
 From V.C15 Require Import Model.
 Import ListNotations.
@@ -1405,3 +1405,584 @@ Proof. intros c seeds es now Ha s Hd Hp. apply progress; assumption. Qed.
 
 Lemma default_factors : 1 <= V.gen.Consts.PARALLELISM_FACTOR /\ 1 <= V.gen.Consts.REPLICATION_FACTOR.
 Proof. unfold V.gen.Consts.PARALLELISM_FACTOR, V.gen.Consts.REPLICATION_FACTOR. lia. Qed.
+
+(* ------------------------------------------------------------------ the top-k window of FIND_NODE responses *)
+
+(* every answered peer that is not in the window is farther than the whole (full) window *)
+Definition winv (c : cfg) (s : state) (g : ghost) : Prop :=
+  c_kind c = KFind ->
+  forall q, In q (g_answered g) -> ~ In q (map snd (resps s)) ->
+    N.of_nat (length (resps s)) = c_k c /\ forall x, In x (resps s) -> fst x < c_dist c q.
+
+Lemma cins_length_new : forall d p l,
+  (forall x, In x l -> fst x <> d) -> length (cins d p l) = S (length l).
+Proof.
+  intros d p l. induction l as [| [d' p'] t IH]; intros H; cbn [cins length]; [reflexivity |].
+  destruct (d <? d'); [reflexivity |]. destruct (N.eqb_spec d d') as [E | E].
+  - exfalso. apply (H (d', p')); [left; reflexivity | cbn [fst]; congruence].
+  - cbn [length]. rewrite IH; [reflexivity |]. intros x Hx. apply H. right. exact Hx.
+Qed.
+
+Lemma removelast_or_last : forall (l : list (N * N)) x,
+  In x l -> In x (removelast l) \/ last_opt l = Some x.
+Proof.
+  induction l as [| a t IH]; intros x H; [destruct H |].
+  destruct t as [| b t'].
+  - destruct H as [H | []]. right. cbn. congruence.
+  - change (removelast (a :: b :: t')) with (a :: removelast (b :: t')).
+    change (last_opt (a :: b :: t')) with (last_opt (b :: t')).
+    destruct H as [H | H]; [left; left; exact H |].
+    destruct (IH x H) as [G | G]; [left; right; exact G | right; exact G].
+Qed.
+
+Lemma sorted_last_max : forall l m x,
+  ssorted l -> last_opt l = Some m -> In x (removelast l) -> fst x < fst m.
+Proof.
+  induction l as [| a t IH]; intros m x Hs Hl Hx; [destruct Hx |].
+  destruct t as [| b t']; [destruct Hx |].
+  change (removelast (a :: b :: t')) with (a :: removelast (b :: t')) in Hx.
+  change (last_opt (a :: b :: t')) with (last_opt (b :: t')) in Hl.
+  cbn [ssorted] in Hs. destruct Hs as [H1 H2].
+  destruct Hx as [Hx | Hx].
+  - subst x. apply H1. apply last_opt_In. exact Hl.
+  - apply (IH m x H2 Hl Hx).
+Qed.
+
+Lemma sorted_last_ge : forall l m x,
+  ssorted l -> last_opt l = Some m -> In x l -> fst x <= fst m.
+Proof.
+  intros l m x Hs Hl Hx. destruct (removelast_or_last l x Hx) as [G | G].
+  - pose proof (sorted_last_max l m x Hs Hl G). lia.
+  - rewrite G in Hl. injection Hl as <-. lia.
+Qed.
+
+Lemma last_opt_none : forall (l : list (N * N)), last_opt l = None -> l = [].
+Proof.
+  induction l as [| a t IH]; intros H; [reflexivity |]. destruct t as [| b t']; [discriminate H |].
+  change (last_opt (a :: b :: t')) with (last_opt (b :: t')) in H. apply IH in H. discriminate H.
+Qed.
+
+Lemma resp_insert_window : forall c k p rs ans,
+  dist_inj c -> ssorted rs ->
+  (forall x, In x rs -> fst x = c_dist c (snd x) /\ In (snd x) ans) ->
+  N.of_nat (length rs) <= k -> ~ In p ans ->
+  (forall q, In q ans -> ~ In q (map snd rs) ->
+     N.of_nat (length rs) = k /\ forall x, In x rs -> fst x < c_dist c q) ->
+  forall q, In q (ans ++ [p]) -> ~ In q (map snd (resp_insert k (c_dist c p) p rs)) ->
+    N.of_nat (length (resp_insert k (c_dist c p) p rs)) = k /\
+    forall x, In x (resp_insert k (c_dist c p) p rs) -> fst x < c_dist c q.
+Proof.
+  intros c k p rs ans Hinj Hs Hr Hlen Hp W q Hq Hn.
+  assert (F1 : forall x, In x rs -> fst x <> c_dist c p).
+  { intros x Hx E. destruct (Hr x Hx) as [A B]. rewrite A in E. apply Hinj in E. apply Hp. rewrite <- E. exact B. }
+  assert (F2 : forall y, In y (map snd rs) -> In y (map snd (cins (c_dist c p) p rs))).
+  { intros y Hy. apply in_map_iff in Hy. destruct Hy as [x [E Hx]]. apply in_map_iff. exists x.
+    split; [exact E | apply cins_keep; [exact Hx | apply F1; exact Hx]]. }
+  assert (F3 : In p (map snd (cins (c_dist c p) p rs))).
+  { apply in_map_iff. exists (c_dist c p, p). split; [reflexivity | apply cins_new]. }
+  pose proof (cins_length_new (c_dist c p) p rs F1) as F4.
+  unfold resp_insert in *.
+  destruct (N.ltb_spec (N.of_nat (length rs)) k) as [L | L].
+  - (* the window is not full: everybody is in it *)
+    exfalso. apply in_app_iff in Hq. destruct Hq as [Hq | [Hq | []]].
+    + assert (X : ~ In q (map snd rs)) by (intros X; apply Hn; apply F2; exact X).
+      destruct (W q Hq X) as [Y _]. lia.
+    + subst q. apply Hn. exact F3.
+  - assert (Lk : N.of_nat (length rs) = k) by lia.
+    destruct (last_opt rs) as [m |] eqn:El.
+    + (* non-empty full window with furthest entry m *)
+      destruct (N.ltb_spec (c_dist c p) (fst m)) as [D | D].
+      * (* p enters, the furthest entry of the extended window leaves *)
+        destruct (N.ltb_spec k (N.of_nat (length (cins (c_dist c p) p rs)))) as [K | K]; [| lia].
+        pose proof (cins_sorted (c_dist c p) p rs Hs) as Hs1.
+        split; [rewrite removelast_length, F4; cbn [pred]; exact Lk |].
+        intros x Hx.
+        destruct (in_dec N.eq_dec q (map snd (cins (c_dist c p) p rs))) as [Hin | Hout].
+        -- (* q is the entry that was pushed out *)
+           apply in_map_iff in Hin. destruct Hin as [y [Ey Hy]].
+           destruct (removelast_or_last _ y Hy) as [G | G].
+           ++ exfalso. apply Hn. apply in_map_iff. exists y. split; assumption.
+           ++ pose proof (sorted_last_max _ y x Hs1 G Hx) as Z.
+              assert (fst y = c_dist c q); [| lia].
+              apply cins_In in Hy. destruct Hy as [Hy | Hy].
+              ** subst y. cbn [fst snd] in *. subst q. reflexivity.
+              ** rewrite <- Ey. apply (Hr y Hy).
+        -- (* q was outside before as well *)
+           assert (Hqa : In q ans).
+           { apply in_app_iff in Hq. destruct Hq as [Hq | [Hq | []]]; [exact Hq |]. subst q. contradiction. }
+           assert (X : ~ In q (map snd rs)) by (intros X; apply Hout; apply F2; exact X).
+           destruct (W q Hqa X) as [_ Y].
+           apply removelast_In in Hx. apply cins_In in Hx. destruct Hx as [Hx | Hx].
+           ++ subst x. cbn [fst]. specialize (Y m (last_opt_In _ _ _ El)). lia.
+           ++ apply Y. exact Hx.
+      * (* p is not closer than the furthest entry: the window is unchanged *)
+        split; [exact Lk |]. intros x Hx.
+        apply in_app_iff in Hq. destruct Hq as [Hq | [Hq | []]].
+        -- destruct (W q Hq Hn) as [_ Y]. apply Y. exact Hx.
+        -- subst q. pose proof (sorted_last_ge rs m x Hs El Hx) as Z. specialize (F1 x Hx). lia.
+    + (* empty window, k = 0 *)
+      pose proof (last_opt_none rs El). subst rs. rewrite N.ltb_irrefl. cbn [length] in *. split; [lia |]. intros x [].
+Qed.
+
+Lemma winv_step : forall c s g e,
+  dist_inj c -> Inv c s -> ginv c s g -> winv c s g ->
+  winv c (fst (step c s e)) (gstep c s g e (snd (step c s e))).
+Proof.
+  intros c s g e Hinj Hi Hg Hw. destruct e as [now | p r | p | p]; cbn [step fst snd].
+  - pose proof (next_action_shape c s now) as Hs. destruct (next_action c s now) as [s' a]. cbn [fst snd] in *.
+    assert (R : resps s' = resps s).
+    { destruct Hs as [[_ [_ [_ [D _]]]] _ | d p t _ _ _ _ _ D | p r _ _ _ _ _ _ D | a _ _ _ [_ [_ [_ [D _]]]]]; exact D. }
+    unfold winv. cbn [gstep g_answered]. rewrite R. exact Hw.
+  - cbn [gstep]. destruct (effective s p) eqn:He; [| rewrite on_response_noeff; assumption].
+    destruct (on_response_eff c s p r He) as [_ [_ [_ [_ [_ [D _]]]]]].
+    unfold winv. cbn [g_answered]. intros Hk. rewrite D, Hk.
+    pose proof (effective_pend s p He) as Hp. destruct (i_pq _ _ _ _ Hi p Hp) as [Hq _].
+    apply (resp_insert_window c (c_k c) p (resps s) (g_answered g) Hinj).
+    + apply (gi_rsorted _ _ _ Hg).
+    + apply (gi_resps _ _ _ Hg).
+    + apply (gi_rlen _ _ _ Hg).
+    + intros X. apply Hq. apply (gi_ans _ _ _ Hg). exact X.
+    + apply Hw. exact Hk.
+  - cbn [gstep]. destruct (effective s p) eqn:He; [| rewrite on_failure_noeff; assumption].
+    destruct (on_failure_eff c s p He) as [_ [_ [_ [_ [_ [D _]]]]]].
+    unfold winv. rewrite D. exact Hw.
+  - exact Hw.
+Qed.
+
+Lemma grun_winv : forall c es s g,
+  dist_inj c -> Inv c s -> ginv c s g -> winv c s g ->
+  winv c (fst (grun c s g es)) (snd (grun c s g es)).
+Proof.
+  intros c es. induction es as [| e t IH]; intros s g Hinj Hi Hg Hw; cbn [grun]; [exact Hw |].
+  pose proof (step_inv c s e Hi) as H1. pose proof (ginv_step c s g e Hinj Hi Hg) as H2.
+  pose proof (winv_step c s g e Hinj Hi Hg Hw) as H3.
+  destruct (step c s e) as [s1 a]. cbn [fst snd] in *. apply IH; assumption.
+Qed.
+
+(* FIND_NODE success reports exactly the k closest of all peers that answered (all of them when
+   fewer than k answered): whoever answered and is not reported is farther than every reported
+   peer, and then k peers are reported *)
+Lemma find_topk_reach : forall c seeds es now l,
+  dist_inj c -> ~ In (c_local c) seeds -> c_kind c = KFind ->
+  let s := fst (grun c (init c seeds) (ghost0 seeds) es) in
+  let g := snd (grun c (init c seeds) (ghost0 seeds) es) in
+  snd (next_action c s now) = AFound l ->
+  forall q, In q (g_answered g) -> ~ In q l ->
+    N.of_nat (length l) = c_k c /\ forall w, In w l -> c_dist c w < c_dist c q.
+Proof.
+  intros c seeds es now l Hinj Hl Hk s g Ha q Hq Hn.
+  destruct (reach_inv c seeds es Hinj Hl) as [Hi Hg].
+  assert (Hw : winv c s g).
+  { apply grun_winv; [exact Hinj | apply init_inv; exact Hl | apply init_ginv; exact Hinj |].
+    intros _ q' []. }
+  destruct (found_cond c s now l Hi Hk Ha) as [El _]. subst l.
+  destruct (Hw Hk q Hq Hn) as [A B]. split; [rewrite map_length; exact A |].
+  intros w Hw'. apply in_map_iff in Hw'. destruct Hw' as [x [E Hx]]. subst w.
+  rewrite <- (proj1 (gi_resps _ _ _ Hg x Hx)). apply B. exact Hx.
+Qed.
+
+(* ------------------------------------------------------------------ merge_and_sort_providers *)
+
+Lemma ins_addr_In : forall a l x, In x (ins_addr a l) <-> x = a \/ In x l.
+Proof.
+  intros a l x. induction l as [| h t IH]; cbn [ins_addr].
+  - cbn [In]. intuition.
+  - destruct (a <? h); [cbn [In]; intuition |]. destruct (N.eqb_spec a h) as [E | E].
+    + subst h. cbn [In]. intuition.
+    + cbn [In]. rewrite IH. intuition.
+Qed.
+
+Lemma ins_addr_sorted : forall a l, asorted l -> asorted (ins_addr a l).
+Proof.
+  intros a l. induction l as [| h t IH]; intros H; cbn [ins_addr].
+  - cbn [asorted]. split; [intros b [] | exact I].
+  - cbn [asorted] in H. destruct H as [H1 H2]. destruct (N.ltb_spec a h) as [L | L].
+    + cbn [asorted]. split; [| split; assumption]. intros b [Hb | Hb]; [subst b; exact L | specialize (H1 b Hb); lia].
+    + destruct (N.eqb_spec a h) as [E | E]; [cbn [asorted]; split; assumption |].
+      cbn [asorted]. split; [| apply IH; exact H2].
+      intros b Hb. apply ins_addr_In in Hb. destruct Hb as [Hb | Hb]; [subst b; lia | apply H1; exact Hb].
+Qed.
+
+Lemma addr_set_In : forall l x, In x (addr_set l) <-> In x l.
+Proof.
+  intros l x. unfold addr_set. induction l as [| a t IH]; cbn [fold_right]; [reflexivity |].
+  rewrite ins_addr_In, IH. cbn [In]. intuition.
+Qed.
+
+Lemma addr_set_sorted : forall l, asorted (addr_set l).
+Proof.
+  intros l. unfold addr_set. induction l as [| a t IH]; cbn [fold_right]; [exact I |].
+  apply ins_addr_sorted. exact IH.
+Qed.
+
+Lemma addrs_of_app : forall p l1 l2, addrs_of p (l1 ++ l2) = addrs_of p l1 ++ addrs_of p l2.
+Proof. intros. unfold addrs_of. apply flat_map_app. Qed.
+
+Lemma addrs_of_notin : forall p l, ~ In p (map fst l) -> addrs_of p l = [].
+Proof.
+  intros p l. unfold addrs_of. induction l as [| x t IH]; intros H; cbn [flat_map]; [reflexivity |].
+  cbn [map In] in H. destruct (N.eqb_spec (fst x) p) as [E | E]; [exfalso; apply H; left; exact E |].
+  cbn [app]. apply IH. intros G. apply H. right. exact G.
+Qed.
+
+Lemma merge_add_keys : forall p a acc q,
+  In q (map fst (merge_add p a acc)) <-> q = p \/ In q (map fst acc).
+Proof.
+  intros p a acc q. induction acc as [| [q0 a0] t IH]; cbn [merge_add].
+  - cbn [map fst In]. intuition.
+  - destruct (N.eqb_spec q0 p) as [E | E].
+    + subst q0. cbn [map fst In]. intuition.
+    + cbn [map fst In]. rewrite IH. intuition.
+Qed.
+
+Lemma merge_add_nodup : forall p a acc, NoDup (map fst acc) -> NoDup (map fst (merge_add p a acc)).
+Proof.
+  intros p a acc. induction acc as [| [q0 a0] t IH]; intros H; cbn [merge_add].
+  - cbn [map fst]. constructor; [intros [] | constructor].
+  - cbn [map fst] in H. inversion H as [| x y Hn Hd]; subst.
+    destruct (N.eqb_spec q0 p) as [E | E]; [cbn [map fst]; constructor; assumption |].
+    cbn [map fst]. constructor; [| apply IH; exact Hd].
+    intros G. apply merge_add_keys in G. destruct G as [G | G]; [congruence | contradiction].
+Qed.
+
+Lemma merge_add_entries : forall p a acc q al,
+  NoDup (map fst acc) -> In (q, al) (merge_add p a acc) ->
+  (q <> p /\ In (q, al) acc) \/
+  (q = p /\ ((exists a0, In (p, a0) acc /\ al = a0 ++ a) \/ (~ In p (map fst acc) /\ al = a))).
+Proof.
+  intros p a acc q al. induction acc as [| [q0 a0] t IH]; intros Hd H; cbn [merge_add] in H.
+  - destruct H as [H | []]. injection H as <- <-. right. split; [reflexivity |]. right. split; [intros [] | reflexivity].
+  - cbn [map fst] in Hd. inversion Hd as [| x y Hn Hd']; subst.
+    destruct (N.eqb_spec q0 p) as [E | E].
+    + subst q0. destruct H as [H | H].
+      * injection H as <- <-. right. split; [reflexivity |]. left. exists a0. split; [left; reflexivity | reflexivity].
+      * left. split; [| right; exact H]. intros G. subst q. apply Hn. apply in_map_iff. exists (p, al). split; [reflexivity | exact H].
+    + destruct H as [H | H].
+      * injection H as <- <-. left. split; [exact E | left; reflexivity].
+      * destruct (IH Hd' H) as [[A B] | [A [[a1 [B C]] | [B C]]]].
+        -- left. split; [exact A | right; exact B].
+        -- right. split; [exact A |]. left. exists a1. split; [right; exact B | exact C].
+        -- right. split; [exact A |]. right. split; [| exact C]. cbn [map fst In]. intros [G | G]; [congruence | contradiction].
+Qed.
+
+Definition merged (acc l0 : list (N * list N)) : Prop :=
+  NoDup (map fst acc) /\
+  (forall p, In p (map fst acc) <-> In p (map fst l0)) /\
+  (forall p al, In (p, al) acc -> al = addrs_of p l0).
+
+Lemma merged_add : forall acc l0 p a, merged acc l0 -> merged (merge_add p a acc) (l0 ++ [(p, a)]).
+Proof.
+  intros acc l0 p a [H1 [H2 H3]]. split; [apply merge_add_nodup; exact H1 | split].
+  - intros q. rewrite merge_add_keys, map_app, in_app_iff, H2. cbn [map fst In]. intuition.
+  - intros q al H. rewrite addrs_of_app. unfold addrs_of at 2. cbn [flat_map fst snd]. rewrite app_nil_r.
+    destruct (merge_add_entries p a acc q al H1 H) as [[A B] | [A [[a1 [B C]] | [B C]]]].
+    + destruct (N.eqb_spec p q) as [E | E]; [congruence |]. rewrite app_nil_r. apply H3. exact B.
+    + subst q. rewrite N.eqb_refl. rewrite C. f_equal. apply H3. exact B.
+    + subst q. rewrite N.eqb_refl. rewrite C. rewrite addrs_of_notin; [reflexivity |]. rewrite <- H2. exact B.
+Qed.
+
+Lemma merged_all : forall l acc l0, merged acc l0 -> merged (merge_all l acc) (l0 ++ l).
+Proof.
+  induction l as [| [p a] t IH]; intros acc l0 H; cbn [merge_all]; [rewrite app_nil_r; exact H |].
+  replace (l0 ++ (p, a) :: t) with ((l0 ++ [(p, a)]) ++ t) by (rewrite <- app_assoc; reflexivity).
+  apply IH. apply merged_add. exact H.
+Qed.
+
+Lemma ins_prov_perm : forall d x l, Permutation (ins_prov d x l) (x :: l).
+Proof.
+  intros d x l. induction l as [| h t IH]; cbn [ins_prov]; [apply Permutation_refl |].
+  destruct (d (fst x) <? d (fst h)); [apply Permutation_refl |].
+  eapply Permutation_trans; [apply perm_skip; exact IH | apply perm_swap].
+Qed.
+
+Lemma sort_prov_perm : forall d l, Permutation (fold_right (ins_prov d) [] l) l.
+Proof.
+  intros d l. induction l as [| x t IH]; cbn [fold_right]; [apply Permutation_refl |].
+  eapply Permutation_trans; [apply ins_prov_perm | apply perm_skip; exact IH].
+Qed.
+
+Fixpoint plesorted (d : N -> N) (l : list (N * list N)) : Prop :=
+  match l with
+  | [] => True
+  | x :: t => (forall y, In y t -> d (fst x) <= d (fst y)) /\ plesorted d t
+  end.
+
+Lemma ins_prov_sorted : forall d x l, plesorted d l -> plesorted d (ins_prov d x l).
+Proof.
+  intros d x l. induction l as [| h t IH]; intros H; cbn [ins_prov].
+  - cbn [plesorted]. split; [intros y [] | exact I].
+  - cbn [plesorted] in H. destruct H as [H1 H2]. destruct (N.ltb_spec (d (fst x)) (d (fst h))) as [L | L].
+    + cbn [plesorted]. split; [| split; assumption].
+      intros y [Hy | Hy]; [subst y; lia | specialize (H1 y Hy); lia].
+    + cbn [plesorted]. split; [| apply IH; exact H2].
+      intros y Hy. apply (Permutation_in _ (ins_prov_perm d x t)) in Hy.
+      destruct Hy as [Hy | Hy]; [subst y; exact L | apply H1; exact Hy].
+Qed.
+
+Lemma sort_prov_sorted : forall d l, plesorted d (fold_right (ins_prov d) [] l).
+Proof.
+  intros d l. induction l as [| x t IH]; cbn [fold_right]; [exact I | apply ins_prov_sorted; exact IH].
+Qed.
+
+Lemma plesorted_dsorted : forall c l,
+  dist_inj c -> NoDup (map fst l) -> plesorted (c_dist c) l -> dsorted c (map fst l).
+Proof.
+  intros c l Hinj. induction l as [| x t IH]; intros Hd Hs; cbn [map dsorted]; [exact I |].
+  cbn [map] in Hd. inversion Hd as [| a b Hn Hd']; subst. cbn [plesorted] in Hs. destruct Hs as [H1 H2].
+  split; [| apply IH; assumption].
+  intros q Hq. apply in_map_iff in Hq. destruct Hq as [y [E Hy]]. subst q.
+  specialize (H1 y Hy).
+  assert (c_dist c (fst x) <> c_dist c (fst y)); [| lia].
+  intros G. apply Hinj in G. apply Hn. rewrite G. apply in_map_iff. exists y. split; [reflexivity | exact Hy].
+Qed.
+
+(* merge_and_sort_providers: every provider peer exactly once, sorted by distance, with exactly
+   the (duplicate-free, sorted) union of the addresses reported for it *)
+Lemma merge_spec : forall c l,
+  dist_inj c ->
+  let m := merge_providers c l in
+  NoDup (map fst m) /\
+  (forall p, In p (map fst m) <-> In p (map fst l)) /\
+  dsorted c (map fst m) /\
+  (forall p al, In (p, al) m ->
+     al = addr_set (addrs_of p l) /\ asorted al /\ forall x, In x al <-> In x (addrs_of p l)).
+Proof.
+  intros c l Hinj m. subst m. unfold merge_providers.
+  set (raw := merge_all l []).
+  set (m1 := map (fun x : N * list N => (fst x, addr_set (snd x))) raw).
+  assert (R : merged raw l).
+  { change l with ([] ++ l). apply merged_all. split; [constructor | split]; [intros p; reflexivity | intros p al []]. }
+  destruct R as [R1 [R2 R3]].
+  assert (K : map fst m1 = map fst raw).
+  { subst m1. rewrite map_map. apply map_ext. intros x. reflexivity. }
+  pose proof (sort_prov_perm (c_dist c) m1) as P.
+  assert (PN : NoDup (map fst (fold_right (ins_prov (c_dist c)) [] m1))).
+  { apply (Permutation_NoDup (l := map fst m1)); [apply Permutation_sym, Permutation_map; exact P | rewrite K; exact R1]. }
+  split; [exact PN | split; [| split]].
+  - intros p. rewrite <- R2, <- K. split; intros H.
+    + apply (Permutation_in _ (Permutation_map fst P)). exact H.
+    + apply (Permutation_in _ (Permutation_sym (Permutation_map fst P))). exact H.
+  - apply plesorted_dsorted; [exact Hinj | exact PN | apply sort_prov_sorted].
+  - intros p al H. apply (Permutation_in _ P) in H. subst m1. apply in_map_iff in H.
+    destruct H as [[q a0] [E Hx]]. cbn [fst snd] in E. injection E as -> <-.
+    rewrite (R3 p a0 Hx). split; [reflexivity | split; [apply addr_set_sorted | intros x; apply addr_set_In]].
+Qed.
+
+(* ------------------------------------------------------------------ closed-loop termination *)
+
+Definition wgt (U : list N) (s : state) (idle : bool) : nat :=
+  (2 * (2 * mu U s + length (recq s)) + (if idle then 0 else 1))%nat.
+
+Lemma run_cons_fst : forall c s e t, fst (run c s (e :: t)) = fst (run c (fst (step c s e)) t).
+Proof.
+  intros c s e t. cbn [run]. destruct (step c s e) as [s1 a]. cbn [fst].
+  destruct (run c s1 t) as [s2 l]. reflexivity.
+Qed.
+
+Lemma drive_done_nil : forall fuel c E idle s, done s = true -> drive fuel c E idle s = [].
+Proof. intros fuel c E idle s H. destruct fuel; cbn [drive]; [reflexivity | rewrite H; reflexivity]. Qed.
+
+Lemma effective_intro : forall s p, done s = false -> In p (map fst (pend s)) -> effective s p = true.
+Proof.
+  intros s p Hd Hp. unfold effective. rewrite Hd. cbn [negb andb]. apply pmem_In. exact Hp.
+Qed.
+
+Lemma drive_terminates : forall c U E,
+  1 <= c_alpha c -> fair U E ->
+  forall fuel s idle,
+  Inv c s -> cands_in U s -> (wgt U s idle < fuel)%nat ->
+  done (fst (run c s (drive fuel c E idle s))) = true /\
+  (length (drive fuel c E idle s) <= wgt U s idle + 1)%nat.
+Proof.
+  intros c U E Ha Hf fuel. induction fuel as [| f IH]; intros s idle Hi Hc Hw; [lia |].
+  cbn [drive]. destruct (done s) eqn:Hd; [cbn [run fst length]; split; [exact Hd | lia] |].
+  specialize (Hf idle s Hd). destruct (e_move E idle s) as [[p [r |]] |].
+  - (* a response *)
+    destruct Hf as [Hp Hr].
+    pose proof (effective_intro s p Hd Hp) as He.
+    pose proof (mu_step c U s (EResp p r) Hi Hc) as [_ M]. cbn [step fst snd] in M.
+    assert (M' : (mu U (on_response c s p r) < mu U s)%nat).
+    { apply M. right. exists p. split; [left; exists r; reflexivity | exact He]. }
+    destruct (on_response_eff c s p r He) as [_ [_ [_ [_ [_ [_ [_ F]]]]]]].
+    assert (R : (length (recq (on_response c s p r)) <= length (recq s) + 1)%nat).
+    { unfold rec_update in F. destruct (c_kind c); try (injection F as _ F2; rewrite F2; lia).
+      destruct (r_rec r) as [[id [|]] |]; injection F as _ F2; rewrite F2; try lia.
+      rewrite app_length. cbn [length]. lia. }
+    pose proof (step_inv c s (EResp p r) Hi) as Hi'. pose proof (cands_in_step c U s (EResp p r) Hr Hc) as Hc'.
+    cbn [step fst] in Hi', Hc'.
+    assert (Hw' : (wgt U (on_response c s p r) false < f)%nat) by (unfold wgt in *; destruct idle; lia).
+    destruct (IH (on_response c s p r) false Hi' Hc' Hw') as [A B].
+    rewrite run_cons_fst. cbn [step fst length]. split; [exact A |]. unfold wgt in *. destruct idle; lia.
+  - (* a failure *)
+    destruct Hf as [Hp _].
+    pose proof (effective_intro s p Hd Hp) as He.
+    pose proof (mu_step c U s (EFail p) Hi Hc) as [_ M]. cbn [step fst snd] in M.
+    assert (M' : (mu U (on_failure c s p) < mu U s)%nat).
+    { apply M. right. exists p. split; [right; reflexivity | exact He]. }
+    destruct (on_failure_eff c s p He) as [_ [_ [_ [_ [_ [_ [_ [_ F]]]]]]]].
+    pose proof (step_inv c s (EFail p) Hi) as Hi'. pose proof (cands_in_step c U s (EFail p) I Hc) as Hc'.
+    cbn [step fst] in Hi', Hc'.
+    assert (Hw' : (wgt U (on_failure c s p) false < f)%nat) by (unfold wgt in *; rewrite F; destruct idle; lia).
+    destruct (IH (on_failure c s p) false Hi' Hc' Hw') as [A B].
+    rewrite run_cons_fst. cbn [step fst length]. split; [exact A |]. unfold wgt in *. rewrite F in B. destruct idle; lia.
+  - (* the engine runs *)
+    set (now := e_time E s).
+    pose proof (next_action_shape c s now) as Hs.
+    pose proof (mu_step c U s (ENext now) Hi Hc) as [M1 M2]. cbn [step fst snd] in M1, M2.
+    pose proof (progress c s now Ha Hd) as Hpr.
+    pose proof (step_inv c s (ENext now) Hi) as Hi'. pose proof (cands_in_step c U s (ENext now) I Hc) as Hc'.
+    cbn [step fst] in Hi', Hc'.
+    rewrite run_cons_fst. cbn [step fst length].
+    destruct (next_action c s now) as [s1 a]. cbn [fst snd] in *.
+    destruct Hs as [[_ [_ [_ [_ [_ [F _]]]]]] Hd1 | d p t _ _ _ _ _ _ _ F _ Hd1 | p r _ _ F _ _ _ _ _ _ Hd1 | a Ht _ Hd1 _].
+    + (* nothing to do: the environment must move next *)
+      assert (idle = false).
+      { destruct Hf as [X | X]; [exact X | exfalso; apply (Hpr X); reflexivity]. }
+      subst idle.
+      assert (Hw' : (wgt U s1 true < f)%nat) by (unfold wgt in *; rewrite F; lia).
+      destruct (IH s1 true Hi' Hc' Hw') as [A B]. split; [exact A |]. unfold wgt in *. rewrite F in B. lia.
+    + assert (M' : (mu U s1 < mu U s)%nat) by (apply M2; left; exists p; reflexivity).
+      assert (Hw' : (wgt U s1 false < f)%nat) by (unfold wgt in *; rewrite F; destruct idle; lia).
+      destruct (IH s1 false Hi' Hc' Hw') as [A B]. split; [exact A |]. unfold wgt in *. rewrite F in B. destruct idle; lia.
+    + assert (Hw' : (wgt U s1 false < f)%nat) by (unfold wgt in *; rewrite F in Hw; cbn [length] in Hw; destruct idle; lia).
+      destruct (IH s1 false Hi' Hc' Hw') as [A B]. split; [exact A |]. unfold wgt in *. rewrite F. cbn [length]. destruct idle; lia.
+    + rewrite (drive_done_nil f c E _ s1 Hd1). cbn [run fst length]. split; [exact Hd1 | lia].
+Qed.
+
+(* Under every fair environment a lookup over a universe of n peers is over after at most
+   8n+2 events, and has then emitted exactly one terminal action. *)
+Lemma closed_loop : forall c U E seeds fuel,
+  1 <= c_alpha c -> ~ In (c_local c) seeds -> (forall p, In p seeds -> In p U) -> fair U E ->
+  (8 * length U + 2 <= fuel)%nat ->
+  let es := drive fuel c E false (init c seeds) in
+  done (fst (run c (init c seeds) es)) = true /\
+  length (terminals (snd (run c (init c seeds) es))) = 1%nat /\
+  (length es <= 8 * length U + 2)%nat.
+Proof.
+  intros c U E seeds fuel Ha Hl Hs Hf Hfuel es.
+  pose proof (mu_init c U seeds) as M.
+  assert (W : (wgt U (init c seeds) false <= 8 * length U + 1)%nat).
+  { unfold wgt. assert (recq (init c seeds) = []) as -> by reflexivity. cbn [length]. lia. }
+  destruct (drive_terminates c U E Ha Hf fuel (init c seeds) false (init_inv c seeds Hl)
+              (init_cands_in c U seeds Hs)) as [A B]; [lia |].
+  subst es. split; [exact A | split; [| lia]].
+  apply (proj2 (one_terminal c seeds _)). exact A.
+Qed.
+
+(* ------------------------------------------------------------------ several queries in one engine *)
+
+Lemma nth_error_upd_same : forall A (l : list A) i x y,
+  nth_error l i = Some y -> nth_error (upd i x l) i = Some x.
+Proof.
+  induction l as [| h t IH]; intros i x y H; destruct i; cbn in *; try discriminate; [reflexivity |].
+  eapply IH. exact H.
+Qed.
+
+Lemma nth_error_upd_other : forall A (l : list A) i j x, i <> j -> nth_error (upd j x l) i = nth_error l i.
+Proof.
+  induction l as [| h t IH]; intros i j x H; destruct j, i; cbn; try reflexivity; try congruence.
+  apply IH. congruence.
+Qed.
+
+Lemma run_app_fst : forall c l1 l2 s, fst (run c s (l1 ++ l2)) = fst (run c (fst (run c s l1)) l2).
+Proof.
+  intros c l1. induction l1 as [| e t IH]; intros l2 s; [reflexivity |].
+  change ((e :: t) ++ l2) with (e :: (t ++ l2)). rewrite !run_cons_fst. apply IH.
+Qed.
+
+Lemma events_of_app : forall i l1 l2, events_of i (l1 ++ l2) = events_of i l1 ++ events_of i l2.
+Proof. intros. unfold events_of. rewrite filter_app, map_app. reflexivity. Qed.
+
+Lemma events_of_seq : forall i now n k,
+  events_of i (map (fun j => (j, ENext now)) (seq k n)) =
+  if Nat.leb k i && Nat.ltb i (k + n)%nat then [ENext now] else [].
+Proof.
+  intros i now n. induction n as [| n IH]; intros k; cbn [seq map].
+  - unfold events_of. cbn [filter map]. destruct (Nat.leb_spec k i), (Nat.ltb_spec i (k + 0)); cbn [andb]; try reflexivity; lia.
+  - unfold events_of in *. cbn [filter fst]. destruct (Nat.eqb_spec k i) as [E | E].
+    + subst k. cbn [map snd]. rewrite IH.
+      destruct (Nat.leb_spec (S i) i); [lia |]. cbn [andb].
+      destruct (Nat.leb_spec i i); [| lia]. destruct (Nat.ltb_spec i (i + S n)); [reflexivity | lia].
+    + rewrite IH.
+      destruct (Nat.leb_spec (S k) i), (Nat.leb_spec k i), (Nat.ltb_spec i (S k + n)), (Nat.ltb_spec i (k + S n));
+        cbn [andb]; try reflexivity; lia.
+Qed.
+
+Lemma scan_nth : forall now eng i c s,
+  nth_error eng i = Some (c, s) ->
+  nth_error (fst (fst (scan now eng))) i =
+  Some (c, if Nat.ltb i (snd (scan now eng)) then fst (next_action c s now) else s).
+Proof.
+  intros now eng. induction eng as [| [c0 s0] t IH]; intros i c s H; [destruct i; discriminate H |].
+  cbn [scan]. destruct (next_action c0 s0 now) as [s' a] eqn:En.
+  destruct i as [| j].
+  - cbn [nth_error] in H. injection H as <- <-. rewrite En.
+    destruct a; try (cbn; reflexivity). destruct (scan now t) as [[t' a'] n]. cbn. reflexivity.
+  - cbn [nth_error] in H. specialize (IH j c s H).
+    destruct a; try (cbn [fst snd nth_error]; rewrite H; destruct j; reflexivity).
+    destruct (scan now t) as [[t' a'] n]. cbn [fst snd nth_error] in *. rewrite IH.
+    change (Nat.ltb (S j) (S n)) with (Nat.ltb j n). reflexivity.
+Qed.
+
+Lemma mstep_query : forall eng m i c s,
+  nth_error eng i = Some (c, s) ->
+  nth_error (fst (fst (mstep eng m))) i = Some (c, fst (run c s (events_of i (snd (mstep eng m))))).
+Proof.
+  intros eng m i c s H. destruct m as [now ch | q e]; cbn [mstep].
+  - destruct ch as [| pch].
+    + pose proof (scan_nth now eng i c s H) as G. destruct (scan now eng) as [[eng' a] n]. cbn [fst snd] in *.
+      rewrite G, events_of_seq. cbn [Nat.leb andb]. rewrite Nat.add_0_l.
+      destruct (Nat.ltb i n); cbn [run]; [| reflexivity].
+      destruct (step c s (ENext now)) as [s1 a1] eqn:Es. cbn [step] in Es. rewrite Es. reflexivity.
+    + set (j := N.to_nat (N.pos pch - 1)). destruct (nth_error eng j) as [[cj sj] |] eqn:Ej.
+      * destruct (next_action cj sj now) as [s' a] eqn:En. cbn [fst snd]. unfold events_of. cbn [filter fst].
+        destruct (Nat.eqb_spec j i) as [E | E].
+        -- subst i. rewrite H in Ej. injection Ej as <- <-. rewrite (nth_error_upd_same _ eng j _ _ H).
+           cbn [map snd run step]. rewrite En. reflexivity.
+        -- rewrite nth_error_upd_other by congruence. cbn [map run fst]. exact H.
+      * cbn [fst snd]. unfold events_of. cbn. exact H.
+  - set (j := N.to_nat q). destruct (nth_error eng j) as [[cj sj] |] eqn:Ej.
+    + destruct (step cj sj e) as [s' a] eqn:En. cbn [fst snd]. unfold events_of. cbn [filter fst].
+      destruct (Nat.eqb_spec j i) as [E | E].
+      * subst i. rewrite H in Ej. injection Ej as <- <-. rewrite (nth_error_upd_same _ eng j _ _ H).
+        cbn [map snd run]. rewrite En. reflexivity.
+      * rewrite nth_error_upd_other by congruence. cbn [map run fst]. exact H.
+    + cbn [fst snd]. unfold events_of. cbn. exact H.
+Qed.
+
+(* every query of a multi-query engine evolves exactly as if it were alone, driven by the
+   sub-sequence of events that reached it *)
+Lemma queries_independent : forall ms eng i c s,
+  nth_error eng i = Some (c, s) ->
+  nth_error (fst (mrun eng ms)) i = Some (c, fst (run c s (events_of i (snd (mrun eng ms))))).
+Proof.
+  induction ms as [| m t IH]; intros eng i c s H; cbn [mrun]; [cbn; exact H |].
+  pose proof (mstep_query eng m i c s H) as G.
+  destruct (mstep eng m) as [[eng1 a] lg]. cbn [fst snd] in G.
+  specialize (IH eng1 i c _ G). destruct (mrun eng1 t) as [eng2 lg2]. cbn [fst snd] in *.
+  rewrite IH, events_of_app, run_app_fst. reflexivity.
+Qed.
+
+(* next_peer_action hands out a message only for a peer that next_action has already sent the
+   request to and that is still outstanding *)
+Lemma peer_msg_sent : forall c seeds es p,
+  dist_inj c -> ~ In (c_local c) seeds ->
+  let s := fst (grun c (init c seeds) (ghost0 seeds) es) in
+  let g := snd (grun c (init c seeds) (ghost0 seeds) es) in
+  peer_msg s p = true -> In p (g_sent g) /\ In p (map fst (pend s)) /\ done s = false.
+Proof.
+  intros c seeds es p Hinj Hl s g H. destruct (reach_inv c seeds es Hinj Hl) as [Hi Hg].
+  unfold peer_msg in H. pose proof (effective_pend s p H) as Hp.
+  split; [apply (gi_sent _ _ _ Hg); left; exact Hp | split; [exact Hp |]].
+  unfold effective in H. destruct (done s); [discriminate H | reflexivity].
+Qed.
+
+Definition env_fail_all : env :=
+  mkEnv (fun _ => 0)
+        (fun idle s => if idle then match pend s with x :: _ => Some (fst x, None) | [] => None end else None).
+
+Lemma env_fail_all_fair : forall U, fair U env_fail_all.
+Proof.
+  intros U idle s _. unfold env_fail_all. cbn [e_move]. destruct idle; [| left; reflexivity].
+  destruct (pend s) as [| x t]; [right; reflexivity |]. split; [left; reflexivity | exact I].
+Qed.
